@@ -452,6 +452,8 @@ class Gen(object):
                 return SFunc(qual)
             raise Unsupported('unknown name %s' % n.id)
         if isinstance(n, ast.Tuple):
+            if not n.elts:
+                return SList(z3.K(I, z3.RealVal(0)), z3.IntVal(0), 'real')      # () used as an empty placeholder row
             return STuple([ev(e) for e in n.elts])
         if isinstance(n, ast.List):
             items = [ev(e) for e in n.elts]
@@ -565,6 +567,8 @@ class Gen(object):
         if isinstance(n, ast.Attribute):
             if isinstance(n.value, ast.Name) and isinstance(env.get(n.value.id), SObject) and n.attr in env[n.value.id].attrs:
                 return env[n.value.id].attrs[n.attr]
+            if isinstance(n.value, ast.Name) and n.value.id not in env and (n.value.id + '.' + n.attr) in self.registry:
+                return SFunc(n.value.id + '.' + n.attr)          # e.g. helpers.find_span_linear used as a value
             raise Unsupported('attribute %s' % ast.dump(n)[:60])
         raise Unsupported('expression %s' % type(n).__name__)
 
@@ -1111,6 +1115,14 @@ class Gen(object):
                 path.env[v] = STuple([fresh(v, x.sort()) for x in old.items])
             # None / functions: unchanged
 
+    def feasible(self, path):
+        sv = z3.Solver()
+        sv.set('timeout', 300)
+        for h in path.hyps:
+            if is_qf(h):
+                sv.add(to_z3(h))
+        return sv.check() != z3.unsat
+
     def block(self, stmts, paths):
         for st in stmts:
             nxt = []
@@ -1182,7 +1194,14 @@ class Gen(object):
             a, b = path.fork(), path.fork()
             a.hyps.append(atom(c))
             b.hyps.append(atom(z3.Not(c)))
-            return self.block(st.body, [a]) + self.block(st.orelse, [b])
+            out = []
+            # a branch whose condition contradicts the quantifier-free facts of the path is dead: every obligation in it
+            # would hold vacuously, so it is not executed (this also keeps unsupported code in dead branches out)
+            if self.feasible(a):
+                out += self.block(st.body, [a])
+            if self.feasible(b):
+                out += self.block(st.orelse, [b])
+            return out
         if isinstance(st, ast.Try):
             # supported shape: guards that only re-raise (input validation); the handlers are dropped
             self.dropped.append('try/except handlers at line %d (only re-raise)' % st.lineno)
@@ -1378,6 +1397,9 @@ class Gen(object):
                 continue
             if isinstance(t, tuple) and t[0] == 'varargs':
                 env[a] = STuple([self.declare('%s_%d' % (a, k), t[2], hyps) for k in range(t[1])])
+                continue
+            if isinstance(t, tuple) and t[0] == 'obj':
+                env[a] = SObject({k: self.declare('%s_%s' % (a, k), v, hyps) for k, v in t[1].items()})
                 continue
             if t == 'self':
                 env[a] = SObject({k: (SFunc(v[1]) if isinstance(v, tuple) and v[0] == 'func' else self.declare('self_' + k, v, hyps))
